@@ -79,6 +79,8 @@ class Stats:
 
     def record(self, case, out, distinct_by_construction=False, max_samples=3):
         self.evaluations += 1
+        if isinstance(case, dict) and case.get("debug_log"):
+            out.label("debug_logging_on")
         for l in out.labels:
             self.labels[l] = self.labels.get(l, 0) + 1
         if out.nontrivial:
@@ -172,6 +174,9 @@ class Findings:
 
 class _Violation(Exception):
     pass
+
+
+_HYP_INTERNAL = (ValueError, IndexError, KeyError, AssertionError, TypeError)
 
 
 def _boom(sig):
@@ -270,6 +275,17 @@ def _hyp_round(ctx, c, strat, state, excluded, total, done, restart):
             case, f = state["last_fail"]
             ctx.note_found(f, case)
             excluded.add(f.sig)
+        except _HYP_INTERNAL as e:
+            # the library's own shrinker failed (seen: ValueError from choice_to_index on a text draw) after a
+            # violation had been found: keep the smallest failing case seen so far instead of losing the finding
+            tb = traceback.extract_tb(e.__traceback__)
+            if state["last_fail"] and tb and "/hypothesis/" in tb[-1].filename.replace(os.sep, "/"):
+                case, f = state["last_fail"]
+                ctx.note_found(f, case)
+                excluded.add(f.sig)
+                ctx.stats.extra["shrinker_errors"] = ctx.stats.extra.get("shrinker_errors", 0) + 1
+            else:
+                raise
         except Flaky as e:  # includes FlakyFailure
             ctx.stats.errors.append("Flaky (non-deterministic case) in %s: %r\nlast_fail=%s" % (
                 c.name, e, canon(state["last_fail"][0])[:3000] if state["last_fail"] else None))
